@@ -18,6 +18,18 @@ func dispatchMore(cmd string, r *prng, count int, extra string) bool {
 		for i := 0; i < count; i++ {
 			emit(runBoxSeq(newPRNG(r.next()), i))
 		}
+	case "disc-step":
+		for i := 0; i < count; i++ {
+			emit(runDiscStep(newPRNG(r.next()), i))
+		}
+	case "disc-sync":
+		for i := 0; i < count; i++ {
+			emit(runDiscSync(newPRNG(r.next()), 100000+i))
+		}
+	case "disc-run":
+		runDiscWholeBatch(r, count)
+	case "disc-race":
+		emit(runDiscRace(r, count))
 	default:
 		return false
 	}
